@@ -373,6 +373,9 @@ func (w *World) execOpExtra(ctx context.Context, toks []string) error {
 	if ok, err := w.execGarbageOp(ctx, toks); ok || err != nil {
 		return err
 	}
+	if ok, err := w.execTransportOp(ctx, toks); ok || err != nil {
+		return err
+	}
 	if toks[0] == "unchanged" {
 		w.observe(atoi(toks[1]))
 		return nil
